@@ -130,6 +130,12 @@ package cisco
 //vc:  hypothesis[C02] len(al) > 0 && al[0] != nil && al[0].subCmdOf != nil
 //vc:  assert[C02] at "del = append(del, &cmdPos)" @deleteEntryRecordsOwnLine cmdPos.cmd == a && cmdPos.pos == r.LowA + i && 0 <= cmdPos.pos && cmdPos.pos < len(al) && al[cmdPos.pos] == a
 //vc:  hypothesis[C02] @rangesNeverEmpty forall k int :: { diff[k] } 0 <= k && k < len(diff) ==> diff[k].LowA < diff[k].HighA || diff[k].LowB < diff[k].HighB
+// block split: the lines behind an inserted line of the other action get a block
+// number no line of the ACL had before (two split-off tails sharing one number
+// would look like one block to moveACL, which would then drop a needed move).
+//vc:  invariant[C02,C14] 1 "for _, r := range diff" @blockNumbersBelowCounter forall k int :: { idx2Block[k] } 0 <= k && k < len(idx2Block) ==> idx2Block[k] <= maxID
+//vc:  invariant[C02,C14] 3 "for i, id0 := range idx2Block[r.LowA:]" @splitNumberUnused (forall k int :: { idx2Block[k] } 0 <= k && k < len(idx2Block) ==> idx2Block[k] <= maxID) && (forall k int :: { loopold(idx2Block[k]) } 0 <= k && k < len(idx2Block) ==> loopold(idx2Block[k]) < maxID)
+//vc:  assert[C02,C14] after "idx2Block[r.LowA+i] =" @splitTailGetsFreshNumber forall k int :: { loopold(idx2Block[k]) } 0 <= k && k < len(idx2Block) ==> loopold(idx2Block[k]) < idx2Block[r.LowA+i]
 //vc:  assign at "action0 := getIOSAction(run[0])" runUniform = true
 //vc:  assign at "action0 == getIOSAction(b)" runUniform = runUniform && strings.Cut(b.parsed, " ") == action0
 //vc:  invariant[C02,C14] 6 "for tail > 0 && getIOSAction(run[tail-1]) == getIOSAction(run[tail])" @tailHasOneAction 0 <= tail && tail < len(run) && (forall j int :: { run[j] } tail <= j && j < len(run) ==> strings.Cut(run[j].parsed, " ") == strings.Cut(run[len(run)-1].parsed, " "))
